@@ -40,7 +40,8 @@ TRUSTED = [
 ASSUMPTIONS = [
     "the target directory is flat and local (no symlinks among its entries, no permission bits - the harness runs as root, "
     "no fsspec / URL targets); the form of the target path (plain, ./x, ../d/x, d//x, through a symlinked directory) is part "
-    "of the input (i_alias)",
+    "of the input (i_alias); model and spec speak about the FILE the target resolves to, whatever its spelling (~/x, "
+    "file://..., a Path object with its own cwd are exercised by the harness and resolve to the same model input)",
     "failures considered: refused or uncreatable target, invalid configuration, failing serialisation, unreadable "
     "save_path_content source; an OS-level crash between two successful writes is outside the property",
     "serialise/parse round trip of the written texts is C01's subject: the theorem states which text is in which file",
